@@ -220,11 +220,13 @@ def run(eng: Engine, ck: Check):
 
     # ---- R-C08-CASE: needle and haystack agree on case normalisation
     tests = []
-    for n in walk_local(q.node):
-        if isinstance(n, ast.Compare) and isinstance(n.ops[0], ast.In) and 'get_query_path' in unparse(n.comparators[0]):
-            tests.append(n)
+    for q_ in eng.scope(q):
+        for n in walk_local(q_.node):
+            if isinstance(n, ast.Compare) and isinstance(n.ops[0], ast.In) and 'get_query_path' in unparse(n.comparators[0]):
+                tests.append((q_, n))
     ck.floor('R-C08-CASE', len(tests), 1)
-    for t in tests:
+    q_outer = q
+    for q, t in tests:
         hay_lower = any(call_name(x) in ('lower', 'casefold') for x in ast.walk(t.comparators[0]))
         needle = t.left
         needle_lower = any(call_name(x) in ('lower', 'casefold') for x in ast.walk(needle))
@@ -250,6 +252,7 @@ def run(eng: Engine, ck: Check):
         st = enclosing_stmt(t)
         ok = isinstance(st, ast.If) and st.test is t and is_terminating(st.body) or (isinstance(st, ast.If) and any(isinstance(x, (ast.Break, ast.Continue)) for x in st.body))
         ck.ob('R-C08-CASE', q, t, 'an item containing an excluded phrase is dropped', bool(ok), 'hit does not skip the item', construct='excluded phrase drops')
+    q = q_outer
 
     # ---- R-C08-REEVAL
     ms = eng.func(TM, 'TransferManager.manage_shares_changed')
@@ -335,7 +338,7 @@ def run(eng: Engine, ck: Check):
     ck.floor('R-C08-REEVAL.job', min(len(msn), len(mtn)), 1)
     for call in calls_on(mj.node, 'manage_shares_changed'):
         gs = expanded_guards(eng, mj, call)
-        ok = any(pol and 'SHARES_CHANGE' in enum_members_in(e) and isinstance(e, ast.BinOp) and isinstance(e.op, ast.BitAnd) for e, pol, _ in gs) and len(gs) == 1
+        ok = any(pol and 'SHARES_CHANGE' in enum_members_in(e) and ((isinstance(e, ast.BinOp) and isinstance(e.op, ast.BitAnd)) or ((cmp_atom(e) or ('',))[0] == 'in' and 'SHARES_CHANGE' in enum_members_in(cmp_atom(e)[1]))) for e, pol, _ in gs) and len(gs) == 1
         ck.ob('R-C08-REEVAL', mj, call, 'the management job re-evaluates uploads iff the SHARES_CHANGE flag was set', ok,
               f'{[(unparse(e), p) for e, p, _ in gs]}', construct='job runs reeval on flag')
     # re-evaluation precedes starting transfers in the same cycle
